@@ -1,10 +1,17 @@
 // adapterir: regenerates the C19 adapter IR from the Go source of {repo}/pkg/adapters/**.
 //
-// For every function or function literal (non-test files) that calls sentinel.Entry /
-// api.Entry it emits one IR term per Entry call site (a function whose top-level branches
-// each request their own entry is split along that branch) into a Coq file
-// (Gen.Adapters_gen) and/or a JSON document (-json) that the harness evaluates with an
-// independent Go implementation of the same contract.
+// An ENTRY POINT is a function literal, or a top-level function / method that is not only
+// called from other functions of its package, from whose body sentinel.Entry / api.Entry is
+// reached: directly, or through same-package helper functions / methods.  Helpers are INLINED
+// at their call sites (inline.go): arguments are bound to parameters, results to the caller's
+// variables, to any depth; so extracting the Entry call, the blocked branch, the error
+// tracing, the Exit or the handler call into a helper leaves the IR of the entry point
+// unchanged.  A helper that cannot be inlined (recursion, function value, other package,
+// result used inside an expression) is an `Unknown` of the entry points that use it.
+// For every entry point it emits one IR term per Entry call reached (a function whose
+// top-level branches each request their own entry is split along that branch) into a Coq
+// file (Gen.Adapters_gen) and/or a JSON document (-json) that the harness evaluates with
+// an independent Go implementation of the same contract.
 //
 // Standard library only (go/ast, go/parser, go/token, go/printer); no type checking: the
 // adapters import third-party frameworks that need not be present.  Everything the
@@ -186,6 +193,12 @@ type pkgInfo struct {
 	defaulted    map[string]bool // fields given a value in a composite literal (option defaults)
 	helperDerefs map[string]int  // same-package func name -> 0 no param deref, 1 deref only inside closures, 2 deref at top level
 	funcs        map[string]*ast.FuncDecl
+	methods      map[string]*ast.FuncDecl // "Type.method"
+	fileOf       map[*ast.FuncDecl]*ast.File
+	aliasOf      map[*ast.File]string // import name of sentinel-golang/api per file ("" if not imported)
+	callRefs     map[*ast.FuncDecl]int // references in call position from other function bodies
+	valueRefs    map[*ast.FuncDecl]int // any other reference (function value, unresolvable receiver)
+	reachMemo    map[*ast.FuncDecl]int // 0 unknown, 1 visiting, 2 no, 3 yes
 }
 
 var reOptions = regexp.MustCompile(`(?i)options$`)
@@ -195,7 +208,19 @@ func (p *pkgInfo) collect() {
 	p.optFuncs = map[string]bool{}
 	p.defaulted = map[string]bool{}
 	p.funcs = map[string]*ast.FuncDecl{}
+	p.methods = map[string]*ast.FuncDecl{}
+	p.fileOf = map[*ast.FuncDecl]*ast.File{}
+	p.aliasOf = map[*ast.File]string{}
 	for _, f := range p.files {
+		for _, im := range f.Imports {
+			if strings.Trim(im.Path.Value, "\"") == sentinelAPI {
+				p.aliasOf[f] = "api"
+				if im.Name != nil {
+					p.aliasOf[f] = im.Name.Name
+				}
+			}
+		}
+		f := f
 		ast.Inspect(f, func(n ast.Node) bool {
 			switch x := n.(type) {
 			case *ast.StructType:
@@ -215,13 +240,31 @@ func (p *pkgInfo) collect() {
 					}
 				}
 			case *ast.FuncDecl:
+				p.fileOf[x] = f
 				if x.Recv == nil {
 					p.funcs[x.Name.Name] = x
+				} else if t := recvTypeName(x); t != "" {
+					p.methods[t+"."+x.Name.Name] = x
 				}
 			}
 			return true
 		})
 	}
+	p.collectRefs()
+}
+
+func recvTypeName(fd *ast.FuncDecl) string {
+	if fd.Recv == nil || len(fd.Recv.List) != 1 {
+		return ""
+	}
+	t := fd.Recv.List[0].Type
+	if st, ok := t.(*ast.StarExpr); ok {
+		t = st.X
+	}
+	if id, ok := t.(*ast.Ident); ok {
+		return id.Name
+	}
+	return ""
 }
 
 func (p *pkgInfo) hasFallbackField() bool {
@@ -252,14 +295,21 @@ type fnCtx struct {
 	alias    string            // import name of sentinel-golang/api in this file
 	params   map[string]string // parameter / receiver name -> declared type (source text), innermost wins
 	optVars  map[string]bool   // variables holding the evaluated options
-	vars     map[string]int    // entry / error variable name -> id
+	vars     map[string]int    // entry / error variable name -> id (names are per function, ids per entry point)
 	entryVar map[string]bool
 	errKind  map[string]string // error variable -> "entry" | "handler"
-	flags    []string
-	guards   []string // fallback fields known non-nil here
-	inBlock  bool     // inside the then-branch of IfBlocked
-	blockErr string   // name of the block error variable
-	lines    []int    // lines of Entry calls, in order
+	guards   []string          // fallback fields known non-nil here
+	inBlock  bool              // inside the then-branch of IfBlocked
+	blockErr string            // name of the block error variable
+
+	// interprocedural part (inline.go)
+	root       *rootCtx      // state shared by the entry point and every helper inlined into it
+	mode       int           // modeRoot | modeTail | modeNonTail
+	fd         *ast.FuncDecl // the helper being inlined (nil for the entry point itself)
+	sites      [][]retVal    // modeNonTail: what each return statement hands back, per result position
+	retTmp     map[int]int   // modeNonTail: id of the anonymous result at position i
+	knownNil   map[int]bool  // error variables (ids) known to be nil here
+	lastStmt   ast.Stmt      // last statement of the function body (a call there is a tail call)
 }
 
 func (c *fnCtx) src(n ast.Node) string {
@@ -276,14 +326,14 @@ func (c *fnCtx) id(name string) int {
 	if v, ok := c.vars[name]; ok {
 		return v
 	}
-	v := len(c.vars)
+	v := c.root.fresh()
 	c.vars[name] = v
 	return v
 }
 
 func (c *fnCtx) flag(desc string) int {
-	c.flags = append(c.flags, desc)
-	return len(c.flags) - 1
+	c.root.flags = append(c.root.flags, desc)
+	return len(c.root.flags) - 1
 }
 
 func typeStr(fset *token.FileSet, e ast.Expr) string {
@@ -315,7 +365,7 @@ func (c *fnCtx) isEntryCall(e ast.Expr) bool {
 		return false
 	}
 	r, p, ok := selPath(call.Fun)
-	return ok && r == c.alias && p == "Entry"
+	return ok && c.alias != "" && r == c.alias && p == "Entry"
 }
 
 // handlerCall reports whether call is the wrapped handler according to the table
@@ -371,14 +421,19 @@ type facts struct {
 	errVarUse  bool
 	funcLit    bool
 	panicRecov bool
+	trace      bool // sentinel.TraceError call
+	helper     bool // call of a same-package helper that has to be inlined (inline.go)
 }
 
 func (f facts) relevant() bool {
-	return f.entryUse || f.handler || f.fallback || f.ret || f.deferGo || f.entryCall || f.panicRecov
+	return f.entryUse || f.handler || f.fallback || f.ret || f.deferGo || f.entryCall || f.panicRecov || f.helper
 }
 
 // scan collects what a subtree mentions (nested function literals included, flagged)
-func (c *fnCtx) scan(n ast.Node) facts {
+func (c *fnCtx) scan(n ast.Node) facts { return c.scan0(n, true) }
+
+// scan0: lits = false ignores nested function literals altogether
+func (c *fnCtx) scan0(n ast.Node, lits bool) facts {
 	var f facts
 	if n == nil {
 		return f
@@ -386,6 +441,9 @@ func (c *fnCtx) scan(n ast.Node) facts {
 	ast.Inspect(n, func(x ast.Node) bool {
 		switch y := x.(type) {
 		case *ast.FuncLit:
+			if !lits {
+				return false
+			}
 			f.funcLit = true
 			inner := c.scan(y.Body)
 			// a nested literal is a different function: only uses of OUR entry matter
@@ -404,6 +462,12 @@ func (c *fnCtx) scan(n ast.Node) facts {
 		case *ast.CallExpr:
 			if c.isEntryCall(y) {
 				f.entryCall = true
+			}
+			if r, p, ok := selPath(y.Fun); ok && c.alias != "" && r == c.alias && p == "TraceError" {
+				f.trace = true
+			}
+			if _, _, ok := c.helperCall(y); ok {
+				f.helper = true
 			}
 			if ok, _ := c.handlerCall(y); ok {
 				f.handler = true
@@ -428,9 +492,11 @@ func (c *fnCtx) unknown(n ast.Node) *Node { return &Node{Op: "Unknown", Src: c.s
 
 func (c *fnCtx) block(stmts []ast.Stmt) *Node {
 	var out []*Node
+	ng, nb := len(c.guards), c.knownNil
 	for _, s := range stmts {
 		out = append(out, c.stmt(s))
 	}
+	c.guards, c.knownNil = c.guards[:ng], nb // facts established by an early return end with the block
 	return seq(out)
 }
 
@@ -688,7 +754,7 @@ func (c *fnCtx) stmt(s ast.Stmt) *Node {
 				return c.unknown(s)
 			}
 			c.entryVar[e.Name] = true
-			c.lines = append(c.lines, c.pkg.fset.Position(call.Pos()).Line)
+			c.root.entrySite(c, call)
 			n := &Node{Op: "Entry", E: c.id(e.Name)}
 			if er.Name == "_" {
 				n.Ign = true
@@ -698,6 +764,16 @@ func (c *fnCtx) stmt(s ast.Stmt) *Node {
 				c.blockErr = er.Name
 			}
 			return n
+		}
+		if len(x.Rhs) == 1 {
+			if call, ok := x.Rhs[0].(*ast.CallExpr); ok {
+				if fd, recv, ok := c.helperCall(call); ok {
+					return c.inlineAssign(s, x.Lhs, call, fd, recv)
+				}
+			}
+		}
+		if f.helper {
+			return c.unknown(s) // a helper's result used inside an expression
 		}
 		if !f.relevant() && !f.optCall {
 			return c.rejectOrOther(s)
@@ -730,6 +806,12 @@ func (c *fnCtx) stmt(s ast.Stmt) *Node {
 				return c.unknown(s)
 			}
 			return other()
+		}
+		if fd, recv, ok := c.helperCall(call); ok {
+			return c.inlineCallStmt(s, call, fd, recv)
+		}
+		if f.helper {
+			return c.unknown(s)
 		}
 		// e.Exit()
 		if sel, ok := call.Fun.(*ast.SelectorExpr); ok {
@@ -767,28 +849,40 @@ func (c *fnCtx) stmt(s ast.Stmt) *Node {
 		return c.rejectOrOther(s)
 
 	case *ast.DeferStmt:
+		if c.mode == modeNonTail {
+			// a helper's own defer runs when the helper returns, not when the entry point does
+			if f.entryUse || f.handler || f.fallback || f.entryCall || f.panicRecov || f.helper || f.optCall {
+				return c.unknown(s)
+			}
+			return other()
+		}
 		if sel, ok := x.Call.Fun.(*ast.SelectorExpr); ok {
 			if id, ok := sel.X.(*ast.Ident); ok && c.entryVar[id.Name] && sel.Sel.Name == "Exit" && len(x.Call.Args) == 0 {
 				return &Node{Op: "DeferExit", E: c.id(id.Name)}
 			}
 		}
-		// defer func() { e.Exit() }()  -- the same thing written as a closure (the entry
-		// variable is assigned once: any other assignment to it is an Unknown)
-		if fl, ok := x.Call.Fun.(*ast.FuncLit); ok && len(x.Call.Args) == 0 && fl.Type.Params.NumFields() == 0 &&
-			fl.Type.Results.NumFields() == 0 && len(fl.Body.List) == 1 {
-			if es, ok := fl.Body.List[0].(*ast.ExprStmt); ok {
-				if call, ok := es.X.(*ast.CallExpr); ok && len(call.Args) == 0 {
-					if sel, ok := call.Fun.(*ast.SelectorExpr); ok {
-						if id, ok := sel.X.(*ast.Ident); ok && c.entryVar[id.Name] && sel.Sel.Name == "Exit" {
-							return &Node{Op: "DeferExit", E: c.id(id.Name)}
-						}
-					}
-				}
-			}
+		// defer func() { e.Exit() }()  /  defer exitHelper(e)  -- the same thing written as a
+		// closure or through a same-package helper: the deferred code, inlined, is exactly one
+		// e.Exit() (the entry variable is assigned once: any other assignment to it is an Unknown)
+		if n := c.deferredExit(x); n != nil {
+			return n
 		}
 		return c.unknown(s)
 
 	case *ast.ReturnStmt:
+		if c.mode == modeNonTail {
+			return c.calleeReturn(x)
+		}
+		if len(x.Results) == 1 {
+			if call, ok := x.Results[0].(*ast.CallExpr); ok {
+				if fd, recv, ok := c.helperCall(call); ok {
+					return c.inlineTail(s, call, fd, recv, true)
+				}
+			}
+		}
+		if f.helper {
+			return c.unknown(s)
+		}
 		var out []*Node
 		ff := facts{}
 		for _, r := range x.Results {
@@ -858,7 +952,7 @@ func (c *fnCtx) ifStmt(x *ast.IfStmt, f facts) *Node {
 		return a, b
 	}
 	fc := c.scan(x.Cond)
-	if fc.handler || fc.fallback || fc.entryCall || fc.entryUse {
+	if fc.handler || fc.fallback || fc.entryCall || fc.entryUse || fc.helper {
 		return c.unknown(x)
 	}
 
@@ -866,34 +960,39 @@ func (c *fnCtx) ifStmt(x *ast.IfStmt, f facts) *Node {
 		// err != nil on an error variable
 		if id, ok := sub.(*ast.Ident); ok {
 			if kind, isErr := c.errKind[id.Name]; isErr {
-				var a, b *Node
-				if kind == "entry" {
-					saved := c.inBlock
-					if op == token.NEQ {
-						c.inBlock = true
-						a = c.block(x.Body.List)
-						c.inBlock = saved
-						b = other()
-						if x.Else != nil {
-							b = c.stmt(x.Else)
+				vid := c.id(id.Name)
+				savedIn, savedNil := c.inBlock, c.knownNil
+				branch := func(nonNil bool, run func() *Node) *Node {
+					c.knownNil = savedNil
+					if nonNil {
+						c.clearNil(vid)
+						if kind == "entry" {
+							c.inBlock = true
 						}
 					} else {
-						a = c.block(x.Body.List)
-						c.inBlock = true
-						b = other()
-						if x.Else != nil {
-							b = c.stmt(x.Else)
-						}
-						c.inBlock = saved
-						a, b = b, a
+						c.setNil(vid)
 					}
-					return seq(append(pre, &Node{Op: "IfBlocked", Err: c.id(id.Name), A: a, B: b}))
+					n := run()
+					c.inBlock, c.knownNil = savedIn, savedNil
+					return n
 				}
-				a, b = thenElse()
+				a := branch(op == token.NEQ, func() *Node { return c.block(x.Body.List) })
+				b := branch(op != token.NEQ, func() *Node {
+					if x.Else != nil {
+						return c.stmt(x.Else)
+					}
+					return other()
+				})
 				if op == token.EQL {
-					a, b = b, a
+					a, b = b, a // a: the variable is non-nil
 				}
-				return seq(append(pre, &Node{Op: "IfErr", V: c.id(id.Name), A: a, B: b}))
+				if terminates(a) {
+					c.setNil(vid) // after the statement (until the end of the enclosing block)
+				}
+				if kind == "entry" {
+					return seq(append(pre, &Node{Op: "IfBlocked", Err: vid, A: a, B: b}))
+				}
+				return seq(append(pre, &Node{Op: "IfErr", V: vid, A: a, B: b}))
 			}
 		}
 		// options.<field> != nil
@@ -1050,12 +1149,41 @@ func split(n *Node) []*Node {
 func renumber(n *Node, all []string) (*Node, []string) {
 	m := map[int]int{}
 	var names []string
+	// variables: numbered from 0 in order of first appearance (helpers inlined or not, the
+	// same code gets the same numbers)
+	vm := map[int]int{}
+	vn := func(v int) int {
+		if _, ok := vm[v]; !ok {
+			vm[v] = len(vm)
+		}
+		return vm[v]
+	}
 	var walk func(x *Node) *Node
 	walk = func(x *Node) *Node {
 		if x == nil {
 			return nil
 		}
 		y := *x
+		switch y.Op {
+		case "Entry":
+			y.E = vn(y.E)
+			if !y.Ign {
+				y.Err = vn(y.Err)
+			}
+		case "IfBlocked":
+			y.Err = vn(y.Err)
+		case "DeferExit", "ExitNow", "Deref":
+			y.E = vn(y.E)
+		case "CallHandler":
+			if y.Mode == "var" {
+				y.V = vn(y.V)
+			}
+		case "IfErr":
+			y.V = vn(y.V)
+		case "TraceError":
+			y.E = vn(y.E)
+			y.V = vn(y.V)
+		}
 		if y.Op == "IfOpt" {
 			if _, ok := m[y.K]; !ok {
 				m[y.K] = len(names)
@@ -1077,6 +1205,7 @@ type output struct {
 	Repo          string        `json:"repo"`
 	GrepCount     int           `json:"grep_entry_calls"` // textual count of ".Entry(" in non-test files
 	ASTCount      int           `json:"ast_entry_calls"`
+	Covered       int           `json:"covered_entry_calls"` // distinct Entry call sites that became an Entry node of some entry point
 	EntryPoints   []*entryPoint `json:"entry_points"`
 	HandlerTable  interface{}   `json:"handler_table"`
 	ParseFailures []string      `json:"parse_failures,omitempty"`
@@ -1158,6 +1287,7 @@ func main() {
 		return nil
 	})
 	sort.Strings(dirs)
+	covered := map[string]bool{}
 
 	for _, d := range dirs {
 		p := pkgs[d]
@@ -1169,24 +1299,27 @@ func main() {
 		sort.Strings(paths)
 		for _, path := range paths {
 			f := p.files[path]
-			alias := ""
-			for _, im := range f.Imports {
-				if strings.Trim(im.Path.Value, "\"") == sentinelAPI {
-					alias = "api"
-					if im.Name != nil {
-						alias = im.Name.Name
-					}
-				}
-			}
-			if alias == "" {
-				continue
-			}
+			alias := p.aliasOf[f]
 			rel, _ := filepath.Rel(root, path)
 			rel = filepath.ToSlash(rel)
 			perFunc := map[string]int{}
 			var eps []*entryPoint
 
-			// find the innermost function bodies that contain an Entry call directly
+			// every Entry call of the file (whatever function it sits in)
+			if alias != "" {
+				ast.Inspect(f, func(m ast.Node) bool {
+					if call, ok := m.(*ast.CallExpr); ok {
+						if r, q, ok := selPath(call.Fun); ok && r == alias && q == "Entry" {
+							res.ASTCount++
+						}
+					}
+					return true
+				})
+			}
+
+			// the entry points: function literals, and top-level functions / methods that are
+			// not only called from other functions of the package, from whose body (outside
+			// nested literals) an Entry call is reached directly or through same-package helpers
 			var stack []ast.Node
 			ast.Inspect(f, func(n ast.Node) bool {
 				if n == nil {
@@ -1198,32 +1331,18 @@ func main() {
 				switch x := n.(type) {
 				case *ast.FuncDecl:
 					body = x.Body
+					if body != nil && !p.isRoot(x) {
+						return true // a helper: translated where it is called
+					}
 				case *ast.FuncLit:
 					body = x.Body
 				}
 				if body == nil {
 					return true
 				}
-				// does this body call Entry outside nested literals?
-				direct := 0
-				ast.Inspect(body, func(m ast.Node) bool {
-					if _, ok := m.(*ast.FuncLit); ok {
-						return false
-					}
-					if call, ok := m.(*ast.CallExpr); ok {
-						if r, q, ok := selPath(call.Fun); ok && r == alias && q == "Entry" {
-							direct++
-						}
-					}
-					return true
-				})
-				if direct == 0 {
-					return true
-				}
-				res.ASTCount += direct
 				c := &fnCtx{pkg: p, file: f, alias: alias, params: map[string]string{}, optVars: map[string]bool{},
-					vars: map[string]int{}, entryVar: map[string]bool{}, errKind: map[string]string{}}
-				usesOptions := false
+					vars: map[string]int{}, entryVar: map[string]bool{}, errKind: map[string]string{},
+					root: newRoot(covered), mode: modeRoot}
 				for _, anc := range stack {
 					switch y := anc.(type) {
 					case *ast.FuncDecl:
@@ -1232,32 +1351,30 @@ func main() {
 						addParams(c, y.Type, nil)
 					}
 				}
-				// option variables: assigned from a call to *Options(...) anywhere in the enclosing declaration
-				ast.Inspect(stack[1], func(m ast.Node) bool {
-					if as, ok := m.(*ast.AssignStmt); ok && len(as.Rhs) == 1 && len(as.Lhs) == 1 {
-						if call, ok := as.Rhs[0].(*ast.CallExpr); ok {
-							if id, ok := call.Fun.(*ast.Ident); ok && reOptions.MatchString(id.Name) {
-								if l, ok := as.Lhs[0].(*ast.Ident); ok {
-									c.optVars[l.Name] = true
-									usesOptions = true
-								}
-							}
-						}
-					}
+				if !c.reaches(body) {
 					return true
-				})
+				}
+				// option variables: assigned from a call to *Options(...) anywhere in the enclosing declaration
+				c.findOptVars(stack[1])
+				if len(body.List) > 0 {
+					c.lastStmt = body.List[len(body.List)-1]
+				}
 				ir := c.block(body.List)
+				if ir.countEntries() == 0 && !ir.hasUnknown() {
+					return true // the helper it calls is not reached with these arguments
+				}
+				ir = c.root.canon(ir)
 				name := funcName(stack)
 				parts := split(ir)
 				for i, part := range parts {
 					perFunc[name]++
 					line := 0
-					if i < len(c.lines) {
-						line = c.lines[i]
+					if i < len(c.root.lines) {
+						line = c.root.lines[i]
 					}
-					part, flags := renumber(part, c.flags)
+					part, flags := renumber(part, c.root.flags)
 					eps = append(eps, &entryPoint{File: rel, Func: name, Line: line,
-						FB: usesOptions && p.hasFallbackField(), Flags: flags, IR: part})
+						FB: c.root.usesOptions && p.hasFallbackField(), Flags: flags, IR: part})
 				}
 				return true
 			})
@@ -1276,12 +1393,15 @@ func main() {
 			}
 		}
 	}
+	res.Covered = len(covered)
 
 	if *out != "" {
 		var b bytes.Buffer
 		b.WriteString("(* GENERATED by translator/adapterir from " + *repo + "/pkg/adapters — do not edit. *)\n")
 		b.WriteString("From SG Require Import Base.Prelude Model.AdapterIR.\nLocal Open Scope nat_scope.\n\n")
 		fmt.Fprintf(&b, "Definition source_entry_calls : nat := %d. (* textual count of \".Entry(\" in non-test files *)\n", res.GrepCount)
+		fmt.Fprintf(&b, "Definition ast_entry_calls : nat := %d. (* Entry calls in the syntax trees *)\n", res.ASTCount)
+		fmt.Fprintf(&b, "Definition covered_entry_calls : nat := %d. (* distinct Entry call sites that became an Entry node of an entry point (helpers inlined) *)\n", res.Covered)
 		fmt.Fprintf(&b, "Definition parse_failures : nat := %d.\n\n", len(res.ParseFailures))
 		b.WriteString("Definition adapters : list adapter := [\n")
 		for i, ep := range res.EntryPoints {
@@ -1324,7 +1444,7 @@ func main() {
 		for _, ep := range res.EntryPoints {
 			fmt.Printf("%s:%s (line %d, fb=%v) flags=%q\n  %s\n", ep.File, ep.Func, ep.Line, ep.FB, ep.Flags, ep.Coq)
 		}
-		fmt.Printf("grep=%d ast=%d entry_points=%d\n", res.GrepCount, res.ASTCount, len(res.EntryPoints))
+		fmt.Printf("grep=%d ast=%d covered=%d entry_points=%d\n", res.GrepCount, res.ASTCount, res.Covered, len(res.EntryPoints))
 	}
 }
 
